@@ -1749,3 +1749,41 @@ pub fn c03_total_error_counts(seed: u64) -> Phase {
         wall_cap_s: 0,
     }
 }
+
+/// Base256 two-codeword length fields written RAW: every first byte 250..=255 with second bytes 0, 1, 249 and the
+/// NON-canonical 250..=255 (the standard keeps the second byte below 250; a decoder meets whatever is there), with
+/// exactly the announced payload present, one codeword more, one less, and a long surplus.
+pub fn c05_base256_raw_length_pairs() -> Phase {
+    const D2: [u8; 9] = [0, 1, 249, 250, 251, 252, 253, 254, 255];
+    let total = 6 * D2.len() as u64 * 4 * 2;
+    let make = move |_ctx: &Ctx, i: u64| -> Trace {
+        let prefix = if i % 2 == 0 { 0usize } else { 2 };
+        let r = i / 2;
+        let present = r % 4;
+        let d2 = D2[((r / 4) % D2.len() as u64) as usize];
+        let d1 = 250 + (r / 4 / D2.len() as u64) as u8;
+        let announced = 250 * (d1 as usize - 249) + d2 as usize;
+        let payload = match present {
+            0 => announced,
+            1 => announced + 1,
+            2 => announced.saturating_sub(1),
+            _ => announced + 300,
+        };
+        let mut out: Vec<u8> = vec![66; prefix];
+        out.push(231);
+        let p = out.len() + 1;
+        out.push(rand255(d1, p));
+        let p = out.len() + 1;
+        out.push(rand255(d2, p));
+        for j in 0..payload {
+            let p = out.len() + 1;
+            out.push(rand255((j as u8).wrapping_mul(37).wrapping_add(0x80), p));
+        }
+        Trace { prop: "C05".into(), producer: Producer::Stream { data: out }, faults: vec![] }
+    };
+    Phase {
+        source: Source::Sweep { name: "sweep_base256_raw_two_byte_lengths".into(), prop: "C05".into(), make: Box::new(make) },
+        runs: total,
+        wall_cap_s: 0,
+    }
+}
